@@ -325,6 +325,10 @@ class Reference:
                 body = ref.arb(params, Q, self.ctx)
             else:
                 body = ref.macrobody(s.mn, params, Q, self.ctx)
+            for raw in body.raw:
+                if hasattr(raw, 'cases'):
+                    for _, f in raw.cases:
+                        self.atoms.append(f)
             if facet:
                 return body.facets[facet - 1]
             return body.inside, body.outside
